@@ -52,7 +52,11 @@ def main():
             print(json.dumps(res, indent=1))
             return 2
         passed = None
-        for attempt in range(2):
+        if os.environ.get("SEED_VERIFY_SKIP_SUITE") == "1" and os.path.exists(os.path.join(VERIF, "seeded", sid, "meta.json")):
+            # regression re-run of an already kept seed: the suite result recorded at confirmation time is reused
+            old = json.load(open(os.path.join(VERIF, "seeded", sid, "meta.json"))).get("confirmation", {}).get("suite_with_change", {})
+            passed = (old.get("passed", 0), old.get("failed", 1))
+        for attempt in range(0 if passed else 2):
             rc, out = sh(f"{PY} -m pytest -q -p no:cacheprovider -n 6 2>&1 | tail -4", cwd=wt, env=env, timeout=1800)
             m = re.search(r"(\d+) passed", out)
             f = re.search(r"(\d+) failed", out)
